@@ -262,7 +262,7 @@ fn body(id: &str, c: &BigCase, tier: Tier) {
         return body_sweep(c, tier);
     }
     if c.dense {
-        return body_dense(c, tier);
+        return body_dense(id, c, tier);
     }
     let mut b = unsafe { build(c, n, m) };
     sh.counters[20] = total as u64;
@@ -772,11 +772,14 @@ fn body_nested(c: &BigCase, _tier: Tier) {
 }
 
 /// Dense group (C09 / C01 / C03): see `BigCase::dense`.
-fn body_dense(c: &BigCase, tier: Tier) {
+fn body_dense(id: &str, c: &BigCase, tier: Tier) {
     let sh = shared();
     let cap: f64 = if tier == Tier::Thorough { 1100.0 } else { 300.0 };
     let f = c.size as f64 / 65535.0;
     let n = ((4.0f64.ln() + f * (cap.ln() - 4.0f64.ln())).exp().round() as usize).max(3);
+    // one dense case in twelve has about a million records whatever the tier
+    // (C03, one layout per case: one in three)
+    let n = if (c.order >> 5) % if id == "C03" { 3 } else { 12 } == 0 { 700 + (c.order as usize * 31) % 420 } else { n };
     DESTROYED.store(0, Ordering::Relaxed);
     let mk = |id: usize| {
         Rc::new(BNode { pad: [id as u64; 136], id: id as u32, canary: CANARY ^ id as u64, clone_on_drop: Cell::new(false), next: RefCell::new(Vec::with_capacity(n + 2)) })
